@@ -29,7 +29,7 @@ func init() {
 			"Non-trivial = the operation has a list argument with >= 2 distinct entries or the result has >= 2 elements; distinct by (operation, arguments). " +
 			"Schedule evidence: number of distinct element orders observed among equal sets, and distinct output orders of common.Unique on a fixed 12-element slice.",
 		Assume: []string{"Go randomises map iteration order per map and per iteration; each in-process call therefore samples a fresh order ('schedule')"},
-		N:      tierN(30_000, 1_000_000),
+		N:      tierN(60_000, 1_500_000),
 		Floor:  tierN(500, 5000),
 		Run:    runC16,
 	})
